@@ -327,17 +327,42 @@ def obs_attrs(d):
     return out
 
 
+NONE_LABEL = -999          # the label of the dummy axis of newaxis (None), as in Lib/HeapX.lean
+
+
+class Outside(Exception):
+    """the step is outside what the model covers (guard mirrored in the model, which refuses too)"""
+
+
+def share_live(env):
+    """what np.shares_memory / `is` see between every pair of live arrays"""
+    out = []
+    for j in range(len(env)):
+        for i in range(j):
+            a, b = env[i], env[j]
+            pairs = [[x, y] for x in range(a.ndim) for y in range(b.ndim)]
+            out.append({"i": i, "j": j, "same": a is b, "vals": bool(np.shares_memory(a.values, b.values)),
+                        "axes": [p for p in pairs if a.axes[p[0]] is b.axes[p[1]]],
+                        "labels": [p for p in pairs if bool(np.shares_memory(a.axes[p[0]].values, b.axes[p[1]].values))],
+                        "attrs": a.attrs is b.attrs,
+                        "attr_vals": [str(k) for k in a.attrs if isinstance(a.attrs[k], list) and k in b.attrs and a.attrs[k] is b.attrs[k]]})
+    return out
+
+
 def obs_live(a):
     if not isinstance(a, DimArray):
         return None
     return {"shape": [int(s) for s in a.shape], "values": [int(v) for v in np.asarray(a.values).reshape(-1).tolist()],
-            "axes": [{"name": str(ax.name), "labels": [int(v) for v in ax.values.tolist()], "attrs": obs_attrs(ax.attrs)} for ax in a.axes],
+            "axes": [{"name": str(ax.name), "labels": [(NONE_LABEL if v is None else int(v)) for v in ax.values.tolist()], "attrs": obs_attrs(ax.attrs)} for ax in a.axes],
             "attrs": obs_attrs(a.attrs)}
 
 
-def run_heap(ops):
-    """execute the history on real objects; per step the snapshots of all live arrays"""
+def run_heap(ops, share=False):
+    """execute the history on real objects; per step the snapshots of all live arrays (and what they share)"""
     env, out = [], []
+
+    def labels_of(ax):
+        return [(NONE_LABEL if v is None else int(v)) for v in ax.values.tolist()]
     for op in ops:
         t = op[0]
         try:
@@ -367,6 +392,35 @@ def run_heap(ops):
                 env.append(env[op[1]] + op[2])
             elif t == "sort_axis":
                 env.append(env[op[1]].sort_axis(axis=op[2]))
+            elif t == "swapaxes":
+                env.append(env[op[1]].swapaxes(op[2], op[3]))
+            elif t == "rollaxis":
+                env.append(env[op[1]].rollaxis(op[2]))
+            elif t == "T":
+                env.append(env[op[1]].T)
+            elif t == "newaxis":
+                env.append(env[op[1]].newaxis(op[2], pos=op[3]))
+            elif t == "slice":
+                env.append(env[op[1]].take(slice(op[3], op[4], op[5]), axis=op[2], indexing="position"))
+            elif t == "sum":
+                if env[op[1]].ndim < 2:
+                    raise Outside("a scalar result is not an array")
+                env.append(env[op[1]].sum(axis=op[2]))
+            elif t == "add_arr":
+                a, b = env[op[1]], env[op[2]]
+                if a.ndim == 0 or a.dims != b.dims or a.shape != b.shape or \
+                        [labels_of(x) for x in a.axes] != [labels_of(x) for x in b.axes]:
+                    raise Outside("operands that need aligning")
+                env.append(a + b)
+            elif t == "reindex":
+                a = env[op[1]]
+                if op[2] >= a.ndim:
+                    raise Outside("no such dimension")
+                have = labels_of(a.axes[op[2]])
+                if len(set(have)) != len(have) or any(l not in have for l in op[3]):
+                    raise Outside("duplicate or missing labels")
+                env.append(a.reindex_axis(np.array(op[3], dtype=np.int64) if NONE_LABEL not in op[3] else
+                                          np.array([None if l == NONE_LABEL else l for l in op[3]], dtype=object), axis=op[2]))
             elif t == "mut":
                 a, m = env[op[1]], op[2]
                 if m[0] == "set_val":
@@ -387,10 +441,17 @@ def run_heap(ops):
                         a.axes[m[1]].attrs[m[2]].append(m[3])
         except Exception as e:                                      # refused: no new variable
             out.append({"err": "%s: %s" % (type(e).__name__, e), "obs": [obs_live(a) for a in env]})
+            if share:
+                out[-1]["share"] = share_live(env)
             continue
         out.append({"obs": [obs_live(a) for a in env]})
+        if share:
+            out[-1]["share"] = share_live(env)
     return out
 
+
+# the strata over the extended heap model (Lib/HeapX.lean)
+HEAPX = True
 
 DERIVED_CALLS = (
     ["add", "radd", "add_self", "reshape_same", "reshape_t", "mean", "sum_axis0", "transpose", "copy", "sort_axis", "take0", "eq",
@@ -413,11 +474,20 @@ DERIVED_CALLS = (
 
 class C15(Prop):
     id = "C15"
-    theorems = ["Heap.apply_extends", "Heap.obsArr_append", "Heap.wf_step", "Heap.wf_run", "Heap.wf_step_counterexample", "Heap.nonmut_frame", "Heap.nonmut_history_frame", "Heap.deepCopy_spec", "Heap.mutate_below", "Heap.mutate_above", "Heap.obsArr_below", "Heap.obsArr_above", "Heap.separation_below", "Heap.separation_above", "Heap.copy_independent", "Heap.copy_independent_rev"]
+    theorems = ["Heap.apply_extends", "Heap.obsArr_append", "Heap.wf_step", "Heap.wf_run", "Heap.wf_step_counterexample", "Heap.nonmut_frame", "Heap.nonmut_history_frame", "Heap.deepCopy_spec", "Heap.mutate_below", "Heap.mutate_above", "Heap.obsArr_below", "Heap.obsArr_above", "Heap.separation_below", "Heap.separation_above", "Heap.copy_independent", "Heap.copy_independent_rev",
+                "Heap.xapply_extends", "Heap.xnonmut_frame", "Heap.xnonmut_history_frame", "Heap.transpose_shares", "Heap.swapaxes_shares",
+                "Heap.rollaxis_shares", "Heap.tT_rank0_same", "Heap.newaxis_shares_values", "Heap.reduceSum_shares_axes",
+                "Heap.write_through_view", "Heap.write_through_view_counterexample", "Heap.fresh_values_independent"]
     rule = ("(heap) object-level histories of 2-9 steps over 1-5 live arrays of rank 1-3: create (unsorted integer labels, "
             "metadata with atoms and mutable lists on the array and on its axes), copy(), transpose, squeeze, a[:], "
             "take(scalar), take(list), a + k, sort_axis, and in-place mutations through any live array (a value cell, a label, "
-            "an axis name, metadata set / append on the array or an axis); (ds) a Dataset built from 1-3 arrays, then 1-4 "
+            "an axis name, metadata set / append on the array or an axis); (heapx) the same histories interleaved with the "
+            "operations of Lib/HeapX.lean (swapaxes, rollaxis, T, newaxis, take(slice(start, stop, step)) by position, sum over "
+            "an axis, a + b for operands with equal dimensions and labels, reindex_axis with labels present in a duplicate-free "
+            "axis), up to 9 live arrays; after EVERY step, besides the snapshots, the sharing between every pair of live arrays is "
+            "compared with the model: `is` on the arrays, np.shares_memory on the values, `is` on every pair of Axis objects, "
+            "np.shares_memory on every pair of label arrays, `is` on the metadata dicts and on their mutable values; a copy() "
+            "that shares anything is a violation of the property, any other difference a model disagreement; (ds) a Dataset built from 1-3 arrays, then 1-4 "
             "non-in-place Dataset calls (axes / keys renaming, indexing, reductions, reindex / interp (_like), align, stack_ds / "
             "concatenate_ds, arithmetic, ==, to_array / to_dict, write_nc, (re)insertion of a variable, copy() followed by a "
             "change of one component of the copy), source arrays and Dataset snapshotted around every call; (derived) "
@@ -434,8 +504,13 @@ class C15(Prop):
             "history with a mutation after a copy or derived array / a sweep case with at least one monitored call; "
             "distinct = canonical JSON")
     assumptions = ["PARTIAL: the theorems are about the object-level model of the aliasing discipline (which result components "
-                   "are new objects, which are shared); for operations outside the heap model the property is decided by the "
-                   "snapshot monitor over generated calls only (a search, not a proof)"]
+                   "are new objects, which are shared); for operations outside the heap model (interpolation, joining, stacking, "
+                   "alignment of operands with different labels, flatten / reshape, cumulative functions, Dataset operations) the "
+                   "property is decided by the snapshot monitor over generated calls only (a search, not a proof)",
+                   "the extended operations (Lib/HeapX.lean) have the frame theorems and the sharing statements; invariance of "
+                   "well-formedness (wf_step) is proved for the operations of Lib/Heap.lean only",
+                   "heapx: steps the model does not cover (a + b that needs aligning, sum of a rank-1 array = a scalar, reindex_axis "
+                   "with absent labels or over duplicate labels) are refused by a guard on both sides"]
 
     def mirrors(self):
         import sys as _s
@@ -526,6 +601,112 @@ class C15(Prop):
                     mm = ["append_axis_attr", d, rng.choice(["hist", "units"]), "i%d" % rng.randint(0, 9)]
                 ops.append(["mut", k, mm])
         return {"op": "heap", "ops": ops, "_groups": groups, "seed": i}
+
+    def gen_heapx(self, rng, i):
+        """histories over the extended operation set (Lib/HeapX.lean); the generator tracks shapes and (as far as it can:
+        in-place label changes through an alias are not followed) labels; steps it gets wrong are refused on both sides"""
+        base = self.gen_heap(rng, i)
+        ops, shapes, groups, labs = [], [], [], []
+        fresh = [0]
+
+        def track(op):
+            t = op[0]
+            k = op[1] if t != "create" else None
+            if t == "create":
+                shapes.append(list(op[1])); labs.append([list(a[1]) for a in op[3]]); groups.append(max(groups + [-1]) + 1)
+                return
+            if t == "mut":
+                m = op[2]
+                if m[0] == "set_label":
+                    labs[k][m[1]][m[2]] = m[3]
+                return
+            sh, lb = shapes[k], labs[k]
+            g = groups[k]
+            if t == "copy":
+                nsh, nlb, g = list(sh), [list(x) for x in lb], max(groups) + 1
+            elif t == "transpose":
+                nsh, nlb = [sh[p] for p in op[2]], [list(lb[p]) for p in op[2]]
+            elif t == "squeeze":
+                nsh, nlb = [x for x in sh if x != 1], [list(l) for x, l in zip(sh, lb) if x != 1]
+            elif t in ("slice_all", "add", "add_arr"):
+                nsh, nlb = list(sh), [list(x) for x in lb]
+                if t == "add_arr":
+                    g = max(groups) + 1
+            elif t in ("take_scalar", "sum"):
+                d = op[2]
+                nsh, nlb = sh[:d] + sh[d + 1:], [list(x) for x in lb[:d] + lb[d + 1:]]
+            elif t == "take_list":
+                d, ps = op[2], op[3]
+                nsh, nlb = sh[:d] + [len(ps)] + sh[d + 1:], [list(x) for x in lb]
+                nlb[d] = [lb[d][q] for q in ps]
+            elif t == "sort_axis":
+                nsh, nlb = list(sh), [list(x) for x in lb]
+                nlb[op[2]] = sorted(lb[op[2]])
+            elif t == "swapaxes":
+                perm = list(range(len(sh))); perm[op[2]], perm[op[3]] = perm[op[3]], perm[op[2]]
+                nsh, nlb = [sh[p] for p in perm], [list(lb[p]) for p in perm]
+            elif t == "rollaxis":
+                perm = [op[2]] + [q for q in range(len(sh)) if q != op[2]]
+                nsh, nlb = [sh[p] for p in perm], [list(lb[p]) for p in perm]
+            elif t == "T":
+                nsh, nlb = list(reversed(sh)), [list(x) for x in reversed(lb)]
+            elif t == "newaxis":
+                nsh, nlb = sh[:op[3]] + [1] + sh[op[3]:], [list(x) for x in lb[:op[3]]] + [[NONE_LABEL]] + [list(x) for x in lb[op[3]:]]
+            elif t == "slice":
+                d = op[2]
+                ps = list(range(sh[d]))[slice(op[3], op[4], op[5])]
+                nsh, nlb = sh[:d] + [len(ps)] + sh[d + 1:], [list(x) for x in lb]
+                nlb[d] = [lb[d][q] for q in ps]
+            elif t == "reindex":
+                d = op[2]
+                nsh, nlb = sh[:d] + [len(op[3])] + sh[d + 1:], [list(x) for x in lb]
+                nlb[d] = list(op[3])
+            else:
+                raise ValueError(t)
+            shapes.append(nsh); labs.append(nlb); groups.append(g)
+
+        def extended():
+            k = rng.randrange(len(shapes))
+            sh, lb = shapes[k], labs[k]
+            rank = len(sh)
+            t = rng.choice(["swapaxes", "rollaxis", "T", "T", "newaxis", "newaxis", "slice", "slice", "sum", "add_arr", "add_arr",
+                            "reindex", "reindex"])
+            if t == "swapaxes" and rank >= 1:
+                return ["swapaxes", k, rng.randrange(rank), rng.randrange(rank)]
+            if t == "rollaxis" and rank >= 1:
+                return ["rollaxis", k, rng.randrange(rank)]
+            if t == "T" and rank <= 2:
+                return ["T", k]
+            if t == "newaxis" and rank <= 3:
+                fresh[0] += 1
+                return ["newaxis", k, "m%d" % fresh[0], rng.randint(0, rank)]
+            if t == "slice" and rank >= 1:
+                d = rng.randrange(rank)
+                a = rng.randint(0, sh[d]); b = rng.randint(a, sh[d] + 1)
+                return ["slice", k, d, a, b, rng.choice([1, 1, 2])]
+            if t == "sum" and rank >= 2:
+                return ["sum", k, rng.randrange(rank)]
+            if t == "add_arr" and rank >= 1:
+                cands = [j for j in range(len(shapes)) if shapes[j] == sh and labs[j] == lb]
+                return ["add_arr", k, rng.choice(cands)]
+            if t == "reindex" and rank >= 1:
+                d = rng.randrange(rank)
+                if len(set(lb[d])) == len(lb[d]) and lb[d] and NONE_LABEL not in lb[d]:
+                    return ["reindex", k, d, [rng.choice(lb[d]) for _ in range(rng.randint(1, 3))]]
+            return None
+
+        bmap = []                                   # variable of the base history -> variable here
+        for op in base["ops"]:
+            if op[0] != "create":
+                op = [op[0], bmap[op[1]]] + list(op[2:])
+            ops.append(op); track(op)
+            if op[0] != "mut":
+                bmap.append(len(shapes) - 1)
+            while rng.random() < 0.55 and len(shapes) < 9:
+                x = extended()
+                if x is not None:
+                    ops.append(x); track(x)
+        return {"op": "heapx", "ops": ops, "_groups": groups, "seed": i}
 
     def gen_ds(self, rng, i):
         """a Dataset built from 1-3 arrays over shared dimensions, then non-in-place Dataset calls"""
@@ -1082,6 +1263,11 @@ class C15(Prop):
         per = 60 if tier == "quick" else 1500
         for i in range(nheap):
             yield self.gen_heap(rng, i)
+        if HEAPX:
+            # a stream of its own (derived from VERIF_SEED), so that the cases of the older strata stay what they were
+            r3 = __import__("random").Random(7919 + int(os.environ.get("VERIF_SEED", "0")))
+            for i in range(400 if tier == "quick" else 8000):
+                yield self.gen_heapx(r3, i)
         for i in range(250 if tier == "quick" else 5000):
             c = self.gen_ds(rng, i)
             if i < 24:
@@ -1125,6 +1311,8 @@ class C15(Prop):
             warnings.simplefilter("ignore")
             if c["op"] == "heap":
                 return {"ok": {"steps": run_heap(c["ops"])}}
+            if c["op"] == "heapx":
+                return {"ok": {"steps": run_heap(c["ops"], share=True)}}
             if c["op"] == "ds":
                 return self.run_ds(c)
             if c["op"] == "derived":
@@ -1172,6 +1360,8 @@ class C15(Prop):
     def request(self, c):
         if c["op"] == "heap":
             return {"op": "heap_history", "ops": c["ops"]}
+        if c["op"] == "heapx":
+            return {"op": "heapx_history", "ops": c["ops"]}
         return {"op": "union", "a": {"name": "x", "kind": "i", "labels": []}, "b": {"name": "x", "kind": "i", "labels": []}, "join": "outer"}
 
     def judge(self, c, io, ans):
@@ -1186,6 +1376,14 @@ class C15(Prop):
         steps = io["ok"]["steps"]
         prop_bad, bad = [], []
         groups = c["_groups"]
+        if c["op"] == "heapx":
+            # the generator's bookkeeping does not follow label changes made through an alias, so a step it expected to
+            # succeed may be refused (by both sides); the copy groups are recomputed from the steps that did add a variable
+            groups, n = [], 0
+            for op, st in zip(c["ops"], steps):
+                if len(st["obs"]) > n:
+                    n = len(st["obs"])
+                    groups.append(max(groups + [-1]) + 1 if op[0] in ("create", "copy", "add_arr") else groups[op[1]])
         prev = []
         for k, (op, st) in enumerate(zip(c["ops"], steps)):
             cur = st["obs"]
@@ -1195,10 +1393,16 @@ class C15(Prop):
                     if x != y:
                         prop_bad.append("step%d:%s:operand_changed:var%d" % (k, op[0], j))
             else:
-                g = groups[op[1]]
+                # (heapx: after a refused step a later mutation may name a variable that does not exist: refused by both sides)
+                g = groups[op[1]] if op[1] < len(groups) else None
                 for j, (x, y) in enumerate(zip(prev, cur)):
                     if x != y and groups[j] != g:
                         prop_bad.append("step%d:mutation_shows_through_copy:var%d" % (k, j))
+            if op[0] == "copy" and "share" in st and "err" not in st and len(cur) > len(prev):
+                # a copy shares no object with anything that existed
+                for sh in st["share"]:
+                    if sh["j"] == len(cur) - 1 and (sh["same"] or sh["vals"] or sh["axes"] or sh["labels"] or sh["attrs"] or sh["attr_vals"]):
+                        prop_bad.append("step%d:copy_shares_with:var%d" % (k, sh["i"]))
             prev = cur
         lean = ans.get("lib")
         if isinstance(lean, list):
@@ -1206,6 +1410,16 @@ class C15(Prop):
                 if st["obs"] != l:
                     bad.append("heap.step%d:%s" % (k, c["ops"][k][0]))
                     break
+            if c["op"] == "heapx" and not bad:
+                lsh = ans.get("share")
+                if not isinstance(lsh, list):
+                    bad.append("lean.no_share")
+                else:
+                    for k, (st, l) in enumerate(zip(steps, lsh)):
+                        if st["share"] != l:
+                            which = sorted(set(f for x, y in zip(st["share"], l) if x != y and x and y for f in x if x[f] != y.get(f)))
+                            bad.append("share.step%d:%s:%s" % (k, c["ops"][k][0], ",".join(which)))
+                            break
         else:
             bad.append("lean.no_answer")
         if not prop_bad and not bad:
@@ -1213,7 +1427,7 @@ class C15(Prop):
         return {"kind": "P" if prop_bad else "M", "differs": sorted(set(prop_bad + bad))[:6], "msg": None}
 
     def nontrivial(self, c):
-        if c["op"] == "heap":
+        if c["op"] in ("heap", "heapx"):
             seen = False
             for op in c["ops"]:
                 if op[0] not in ("create", "mut"):
@@ -1225,9 +1439,20 @@ class C15(Prop):
 
     def features(self, c, io):
         f = {"outcome": "err:" + io["err"] if "err" in io else "ok", "op": c["op"]}
-        if c["op"] == "heap":
+        if c["op"] in ("heap", "heapx"):
             for op in c["ops"]:
                 f["heap:" + (op[0] if op[0] != "mut" else "mut:" + op[2][0])] = 1
+            if c["op"] == "heapx" and "ok" in io:
+                for st in io["ok"]["steps"]:
+                    for sh in st.get("share", []):
+                        if sh["vals"]:
+                            f["share:values"] = 1
+                        if sh["axes"]:
+                            f["share:axis_object"] = 1
+                        if sh["same"]:
+                            f["share:same_object"] = 1
+                        if sh["attr_vals"]:
+                            f["share:metadata_value"] = 1
             f["nvars"] = len(c["_groups"])
             f["ncopygroups"] = len(set(c["_groups"]))
             if "ok" in io:
